@@ -148,6 +148,10 @@ Inductive setup :=
 | SBlobs (a b : blob)                                      (* both ends built by NewStreamWithCryptoState *)
 | SRelay (k ivA ivB : bytes)                               (* cleartext phase through an editing relay, then keys *)
          (sentAB : list bytes) (seenAB : list (N * bytes))   (* A sends messages; B is handed these (flag, payload) frames *)
+         (sentBA : list bytes) (seenBA : list (N * bytes))
+| SRelayX (opts : N)                                       (* SRelay with, on both ends: bit 0 SetConnection between the two legs, *)
+         (k ivA ivB : bytes)                               (* bit 1 FinalizeDigests before the keys, bit 2 SetConnection before the keys *)
+         (sentAB : list bytes) (seenAB : list (N * bytes))
          (sentBA : list bytes) (seenBA : list (N * bytes)).
 
 Inductive step :=
@@ -209,6 +213,22 @@ Definition init_world (su : setup) : option world :=
       let '(b1, ok2) := recv_raw new_stream seenAB in
       let '(b2, ok3) := send_only b1 sentBA in
       let '(a2, ok4) := recv_raw a1 seenBA in
+      match set_key a2 k ivA, set_key b2 k ivB with
+      | SOk a3, SOk b3 => if ok1 && ok2 && ok3 && ok4
+                          then Some {| wa := a3; wb := b3; hab := []; hba := []; wkey := k; pab := []; pba := [] |} else None
+      | _, _ => None
+      end
+  | SRelayX opts k ivA ivB sentAB seenAB sentBA seenBA =>
+      let swap (on : bool) (s : stream) := if on then set_connection s (peer_addr s) else s in
+      let fin (on : bool) (s : stream) := if on then finalize_digests s else s in
+      let '(a1, ok1) := send_only new_stream sentAB in
+      let '(b1, ok2) := recv_raw new_stream seenAB in
+      let a1 := swap (N.testbit opts 0) a1 in
+      let b1 := swap (N.testbit opts 0) b1 in
+      let '(b2, ok3) := send_only b1 sentBA in
+      let '(a2, ok4) := recv_raw a1 seenBA in
+      let a2 := fin (N.testbit opts 1) (swap (N.testbit opts 2) a2) in
+      let b2 := fin (N.testbit opts 1) (swap (N.testbit opts 2) b2) in
       match set_key a2 k ivA, set_key b2 k ivB with
       | SOk a3, SOk b3 => if ok1 && ok2 && ok3 && ok4
                           then Some {| wa := a3; wb := b3; hab := []; hba := []; wkey := k; pab := []; pba := [] |} else None
